@@ -483,6 +483,37 @@ def bounded(tier, seed):
                     return 'where: mask differs'
                 return None
             run.case('C06:mask(where)', (dt, masked), t_where)
+    # mask_vals (the function behind `pncgen --mask type,value`): cells that satisfy the predicate OR were already masked are masked,
+    # no unmasked value changes; also chained (`--mask less,2 --mask greater,7`)
+    from PseudoNetCDF.core._functions import mask_vals
+    preds = {'greater': np.greater, 'less': np.less, 'greater_equal': np.greater_equal, 'less_equal': np.less_equal, 'equal': np.equal, 'not_equal': np.not_equal}
+    for dt in ('f', 'd', 'i'):
+        for chain in (('greater,7',), ('less,2',), ('less_equal,3',), ('greater_equal,8',), ('equal,5',), ('not_equal,5',), ('less,2', 'greater,7'), ('greater,7', 'less,2')):
+            def t_mv(dt=dt, chain=chain):
+                f = P.PseudoNetCDFFile()
+                f.createDimension('t', 3)
+                f.createDimension('x', 4)
+                data = (np.arange(12).reshape(3, 4)).astype(dt)
+                old = np.zeros((3, 4), bool)
+                old[0, 1] = old[1, 2] = old[2, 3] = True       # already masked cells with ordinary values underneath (1, 6, 11)
+                f.createVariable('v', dt, ('t', 'x'), values=np.ma.masked_array(data.copy(), mask=old.copy()), units='1')
+                f.createVariable('plain', dt, ('t', 'x'), values=data.copy() + 1, units='1')
+                g = f
+                expm, expm2 = old.copy(), np.zeros((3, 4), bool)
+                for md in chain:
+                    g = mask_vals(g, md)
+                    nm, val = md.split(',')
+                    expm |= preds[nm](data, float(val))
+                    expm2 |= preds[nm](data + 1, float(val))
+                for vk, em, dd in (('v', expm, data), ('plain', expm2, data + 1)):
+                    out = np.ma.asarray(g.variables[vk][...])
+                    gm = np.ma.getmaskarray(out)
+                    if not np.array_equal(gm, em):
+                        return 'mask_vals %s: mask of %s is %r, expected predicate OR already masked %r' % (' then '.join(chain), vk, gm.astype(int).tolist(), em.astype(int).tolist())
+                    if not np.array_equal(np.ma.getdata(out)[~em], dd[~em]):
+                        return 'mask_vals %s: an unmasked value of %s changed' % (' then '.join(chain), vk)
+                return None
+            run.case('C06:mask_vals', (dt, chain), t_mv)
     return run.result(
         rule='real operators / eval / mask vs direct numpy.ma evaluation on snapshots; masks exact, values rtol 1e-6; coordinate variables passed through; inputs unchanged',
         bound='pairs of conforming files (2x4), dtypes f4 f8 i4 i2, masked/unmasked operands, operands containing 0, 1, inf, nan; 13 operators; all 2^6 x 2 predicate combinations of mask()')
